@@ -2,6 +2,7 @@ package utils
 
 import (
 	"bytes"
+	"errors"
 	"fmt"
 	"sync"
 
@@ -166,6 +167,7 @@ func (p *NetFlowPipe) DecodeFlow(msg interface{}) error {
 
 	// decode the version
 	var version uint16
+	var templateErr error // data sets without a known template, reported after the rest was sent
 	if err := utils.BinaryDecoder(buf, &version); err != nil {
 		return &PipeMessageError{pkt, err}
 	}
@@ -178,12 +180,19 @@ func (p *NetFlowPipe) DecodeFlow(msg interface{}) error {
 	case 9:
 		packetNFv9.Version = 9
 		if err := netflow.DecodeMessageNetFlow(buf, templates, &packetNFv9); err != nil {
-			return &PipeMessageError{pkt, err}
+			if !errors.Is(err, netflow.ErrorTemplateNotFound) {
+				return &PipeMessageError{pkt, err}
+			}
+			// only templates are missing: the other sets were decoded and are still produced
+			templateErr = &PipeMessageError{pkt, err}
 		}
 	case 10:
 		packetIPFIX.Version = 10
 		if err := netflow.DecodeMessageIPFIX(buf, templates, &packetIPFIX); err != nil {
-			return &PipeMessageError{pkt, err}
+			if !errors.Is(err, netflow.ErrorTemplateNotFound) {
+				return &PipeMessageError{pkt, err}
+			}
+			templateErr = &PipeMessageError{pkt, err}
 		}
 	default:
 		return &PipeMessageError{pkt, fmt.Errorf("not a NetFlow packet")}
@@ -201,7 +210,7 @@ func (p *NetFlowPipe) DecodeFlow(msg interface{}) error {
 	}
 
 	if p.producer == nil {
-		return nil
+		return templateErr
 	}
 
 	switch version {
@@ -217,7 +226,10 @@ func (p *NetFlowPipe) DecodeFlow(msg interface{}) error {
 		return &PipeMessageError{pkt, err}
 	}
 
-	return p.formatSend(flowMessageSet)
+	if err := p.formatSend(flowMessageSet); err != nil {
+		return err
+	}
+	return templateErr
 }
 
 func (p *NetFlowPipe) Close() {
